@@ -69,6 +69,7 @@ func (e *Engine) resetFunc(key string) {
 	e.boundedLoops = map[string]int{}
 	e.usedGhostFuncs = map[string]bool{}
 	e.inputs = nil
+	e.retCovers = 0
 	e.closures = map[string]Val{}
 }
 
@@ -206,7 +207,7 @@ func (e *Engine) runFunc(fn *ssa.Function, fc *FuncContract) {
 			st.assignsEnv = ac
 		}
 	}
-	e.explore(st)
+	e.explore(st, 0, nil, 0)
 }
 
 func (e *Engine) registerInput(name string, v Val) {
@@ -244,7 +245,12 @@ func (e *Engine) checkPost(st *State, res []Val, pos interface{}) {
 		}
 		st.addCheck(&Check{Name: fmt.Sprintf("%s.post.%d", fc.Key, en.Ord), Kind: "post", Goal: t, Pos: en.Where, Tags: en.Tags, Func: fc.Key, Clause: en.Text, Bounded: st.boundedNow()})
 	}
-	st.addCheck(&Check{Name: "vacuity." + fc.Key + ".return", Kind: "vacuity", Goal: "false", Cover: true, Func: fc.Key})
+	// reachability probes are expensive with quantifiers in the context: a handful per function is enough to show
+	// that the contract is not vacuous
+	e.retCovers++
+	if e.retCovers <= 6 {
+		st.addCheck(&Check{Name: "vacuity." + fc.Key + ".return", Kind: "vacuity", Goal: "false", Cover: true, Func: fc.Key})
+	}
 }
 
 // ---------- lemmas: straight-line ghost programs over contracts ----------
@@ -492,7 +498,11 @@ func (e *Engine) discharge(rep *FuncReport, cfg *RunCfg) {
 		}
 	}
 	axioms := e.axiomText()
+	if os.Getenv("GOVC_TRACE") != "" {
+		fmt.Fprintf(os.Stderr, "govc: %s: %d paths, %d solver jobs\n", rep.Key, len(e.paths), len(jobs))
+	}
 	results := map[int]*OblResult{}
+	failedNames := map[string]bool{}
 	var mu sync.Mutex
 	var wg sync.WaitGroup
 	sem := make(chan struct{}, cfg.Workers)
@@ -545,7 +555,13 @@ func (e *Engine) discharge(rep *FuncReport, cfg *RunCfg) {
 							}
 						}
 					}
+				} else if func() bool { mu.Lock(); defer mu.Unlock(); return failedNames[c.Name] }() {
+					or.Status = "undecided"
+					or.Answer = ans + " (the same obligation already failed on another path; not escalated again)"
 				} else {
+					mu.Lock()
+					failedNames[c.Name] = true
+					mu.Unlock()
 					// standalone portfolio run with model
 					q := hdr + e.strLitDecls(j.prefix[i]+c.Goal+axioms) + axioms + stripChecks(j.prefix[i])
 					if !c.Cover {
